@@ -243,6 +243,7 @@ pub fn run_program(p: &TProgram, budget: u32) -> THistory {
         let h = std::thread::Builder::new()
             .stack_size(256 * 1024)
             .spawn(move || {
+                stack::install_thread();
                 stack::capture_panics(true);
                 simseam::rng::seed(rng_seed);
                 let r = catch_unwind(AssertUnwindSafe(|| {
